@@ -48,17 +48,19 @@ class NonTermination(Exception):
     wall-clock trigger AND after LINE_BUDGET executed source lines."""
 
 
-CALL_DEADLINE = 10.0        # seconds; a trigger only, never a verdict by itself
+CALL_DEADLINE = 30.0        # seconds; a trigger only, never a verdict by itself
 LINE_BUDGET = 30_000_000    # executed source lines (sys.monitoring LINE), the logical budget
 NONTERM_SEEN = [0]
+SLOW_CALLS = [0]
 
 
 def call(fn: Any, *a: Any, **kw: Any) -> Outcome:
     """One call of the code under test.  Calls normally take milliseconds; one that runs into
     the wall-clock trigger is repeated under a line counter and recorded as NonTermination only
-    if it exceeds the logical budget as well (otherwise the run is inconclusive)."""
+    if it exceeds the logical budget as well; a slow call that terminates within the budget is
+    judged by the outcome of its repetition (the clock of a loaded machine decides nothing)."""
     o = Outcome()
-    # after three confirmed non-terminations the verdict is settled; do not spend 10 s on each
+    # after three confirmed non-terminations the verdict is settled; do not spend 30 s on each
     # of the (typically many) further inputs that hit the same loop
     limit = CALL_DEADLINE if NONTERM_SEEN[0] < 3 else 0.5
     with warnings.catch_warnings(record=True) as log:
@@ -73,15 +75,35 @@ def call(fn: Any, *a: Any, **kw: Any) -> Outcome:
                 o.exc_type = type(e).__name__
                 o.exc_family = family(e)
         if dl.fired:
-            if NONTERM_SEEN[0] >= 3 or common.runs_beyond(lambda: fn(*a, **kw), LINE_BUDGET):
+            again: Dict[str, Any] = {}
+
+            def rerun() -> None:
+                try:
+                    again["value"] = fn(*a, **kw)
+                except common.StepLimit:
+                    raise
+                except (KeyboardInterrupt, SystemExit):
+                    raise
+                except BaseException as e:  # noqa
+                    again["exc"] = e
+
+            if NONTERM_SEEN[0] >= 3 or common.runs_beyond(rerun, LINE_BUDGET):
                 NONTERM_SEEN[0] += 1
                 o.value = None
                 o.exc = NonTermination(f"still running after {limit} s and {LINE_BUDGET} lines")
                 o.exc_type = "NonTermination"
                 o.exc_family = "foreign"
             else:
-                raise common.Overloaded("a call hit the wall-clock trigger but finished within "
-                                        "the line budget (overloaded machine?)")
+                # slow (loaded machine), but it terminates within the logical budget: the
+                # repeated call's own outcome is the observation
+                SLOW_CALLS[0] += 1
+                o.value, o.exc, o.exc_type, o.exc_family = None, None, "", ""
+                if "exc" in again:
+                    o.exc = again["exc"]
+                    o.exc_type = type(o.exc).__name__
+                    o.exc_family = family(o.exc)
+                else:
+                    o.value = again.get("value")
     for w in log:
         names = [c.__name__ for c in type(w.message).__mro__]
         if "OdxWarning" in names and "verlapping" in str(w.message):
